@@ -419,7 +419,7 @@ pub fn enc_one(data: &[u8], mask: &[&str], known: &Known) -> Vec<Found> {
         collect(&props::c06::C06, &case7, known, &mut out);
     }
     if on("C07") && call.is_response_encoder() {
-        collect(&props::c07::C07, &case7, known, &mut out);
+        collect(&props::c07::C07, &props::common::PktCase::Enc(case7.clone()), known, &mut out);
     }
     if on("C08") && matches!(call, EncCall::ReqVendor { .. } | EncCall::TraitPci { .. } | EncCall::TraitIana { .. } | EncCall::TraitSpdm { .. }) {
         collect(&props::c08::C08, &case7, known, &mut out);
